@@ -531,22 +531,33 @@ func ruleWidths(r *Report) {
 	}
 	// writeSwap retags the header byte as Put
 	if fn := r.Anchor("(*commit.Reader).writeSwap"); fn != nil {
-		var and, or bool
-		allInstrs(fn, func(ins ssa.Instruction) {
-			if st, ok := ins.(*ssa.Store); ok {
-				if bo, ok := st.Val.(*ssa.BinOp); ok {
-					if c, isC := constInt(bo.Y); isC {
-						if bo.Op == token.AND && c == 0xf0 {
-							and = true
-						}
-						if bo.Op == token.OR && c == opPut {
-							or = true
-						}
+		// analysis W: the only byte written is the header in front of the value (i0-1), and for every
+		// header value v it becomes v&0xf0 | Put
+		in := &Interp{Inline: wireInline}
+		in.Run(fn)
+		ok := len(in.Paths) == 1 && in.Truncated == 0
+		if ok {
+			p := in.Paths[0]
+			cell := mkRaw("elem", 0, "", mkSym("r.buffer@0"), mkOp("add", mkSym("r.i0@0"), mkConst(-1)))
+			old := mkRaw("idx", 0, "", mkSym("r.buffer@0"), mkOp("add", mkSym("r.i0@0"), mkConst(-1)))
+			for _, ev := range p.Events {
+				if ev.Kind == "store" && ev.Name != cell.key {
+					ok = false
+				}
+			}
+			v := p.Heap[cell.key]
+			if v == nil {
+				ok = false
+			} else {
+				for hv := int64(0); hv < 256; hv++ {
+					got, known := evalExpr(v, map[string]int64{old.key: hv})
+					if !known || got&0xff != hv&0xf0|opPut {
+						ok = false
 					}
 				}
 			}
-		})
-		h.Check(and && or, "writeSwap", r.P.Pos(fn.Pos()), "header := header&0xf0 | Put", "writeSwap does not rewrite the operation nibble to Put while keeping the size/flag bits")
+		}
+		h.Check(ok, "writeSwap", r.P.Pos(fn.Pos()), "header := header&0xf0 | Put", "writeSwap does not rewrite the operation nibble to Put while keeping the size/flag bits")
 	}
 }
 
